@@ -13,8 +13,12 @@ from .. import pipes
 from ..core import Suite, VERIF
 
 PROPERTY = "C11"
-LEAN_MODULES = ["DAVerif.Props.C11"]
+LEAN_MODULES = ["DAVerif.Props.C11", "DAVerif.Props.C11sql"]
 THEOREMS = [
+    # the SQL half (Props/C11sql.lean): == pipelines translate to the same NearSQL tree up to what is never printed
+    "DAVerif.C11.C11_sql_same_tree", "DAVerif.C11.C11_sql_same_tree_reachable", "DAVerif.C11.C11_sql_same_tree_normalised",
+    "DAVerif.C11.C11_sql_same_with_form", "DAVerif.C11.C11_sql_same_sem", "DAVerif.C11.C11_sql_same_sem_options",
+    "DAVerif.C11.C11_sql_same_sem_cte_elim", "DAVerif.C11.C11_sql_exact_tree_false", "DAVerif.C11.C11_sql_cte_elim_necessary",
     "DAVerif.C11.C11_refl",
     "DAVerif.C11.C11_symm",
     "DAVerif.C11.C11_trans",
@@ -47,10 +51,13 @@ ASSUMPTIONS = [
     "pipelines are compared as trees: a shared sub-DAG is expanded on both sides (as __eq__ itself does)",
 ]
 NOT_PROVEN = [
-    "'the same SQL in every dialect': there is no Lean model of the SQL generator yet. Proven: p == q implies p and q "
-    "are the same tree up to the `method` flags of expressions (C11_sound_struct). Sampled by the oracle on the real "
-    "code: to_sql text (5 dialects) of p and q is identical whenever p == q, in particular for pairs that differ only "
-    "in `method` flags.",
+    "'the same SQL in every dialect' is proved at the level of the SQL generator model: == pipelines translate to the same "
+    "NearSQL tree up to the method flags of the carried expressions and the never-printed ops_key strings (C11_sql_same_tree), the "
+    "same WITH form without CTE elimination, and the same result under the modelled engine for every option combination (with "
+    "CTE elimination under C04's KeyFaithful hypothesis). The text renderer is not modelled (the only reader of the method flag is "
+    "Expression.to_python); to_sql texts of 5 dialects (+ PostgreSQL with CTE elimination) are compared by the oracle",
+    "literal equality of the trees is false (C11_sql_exact_tree_false: ops_key contains the printed pipeline) and under CTE "
+    "elimination the emitted CTE lists can differ (C11_sql_cte_elim_necessary = known finding C11-method-flag-cte-elim)",
 ]
 LEVEL_TEXT = ("Kernel-checked for every pair of operator trees, every interpretation of the function symbols, both "
               "semantic configurations and every environment: == (model Eq.eqOps of the patched code) is reflexive, "
@@ -405,12 +412,22 @@ def sql_models():
                        ("PostgreSQLModel", data_algebra.PostgreSQL.PostgreSQLModel()),
                        ("BigQueryModel", data_algebra.BigQuery.BigQueryModel()),
                        ("MySQLModel", data_algebra.MySQL.MySQLModel()),
-                       ("SparkSQLModel", data_algebra.SparkSQL.SparkSQLModel())]
+                       ("SparkSQLModel", data_algebra.SparkSQL.SparkSQLModel()),
+                       # WITH form + CTE elimination (experimental option): the cache key contains the printed pipeline
+                       ("PostgreSQLModel+cte_elim", _CteElim(data_algebra.PostgreSQL.PostgreSQLModel()))]
     return _SQL_MODELS
+
+
+class _CteElim:
+    """a model to be asked for `to_sql(..., use_with=True, use_cte_elim=True)`"""
+    def __init__(self, model):
+        self.model = model
 
 
 def sql_text(model, ops):
     opt = pipes.L.SQLFormatOptions(annotate=False)
+    if isinstance(model, _CteElim):
+        model, opt = model.model, pipes.L.SQLFormatOptions(annotate=False, use_with=True, use_cte_elim=True)
     try:
         with warnings.catch_warnings():
             warnings.simplefilter("ignore")
@@ -693,6 +710,9 @@ class K3Eq(Suite):
         if why.startswith("sql-differs") and _norm_zero(case["p"]) == _norm_zero(case["q"]) \
                 and json.dumps(case["p"], sort_keys=True) != json.dumps(case["q"], sort_keys=True):
             return "C11-negative-zero-constant"
+        if why.startswith("sql-differs") and "+cte_elim.to_sql differs" in why:
+            # only under CTE elimination, and the pair differs in the printing form of an expression only
+            return "C11-method-flag-cte-elim"
         return None
 
     def nontrivial(self, case, real_out):
